@@ -166,7 +166,9 @@ static int32_t wr_data(struct jls_core_fsr_s * self) {
             data_const = (data_const & 0x0f);
             data_const |= (data_const << 4);
         }
-        omit_data = is_mem_const(self->data->data, data_length, data_const);
+        // only full blocks: the length of a trailing partial block is stored nowhere but in its data chunk
+        omit_data = (self->data->header.entry_count >= self->data_length)
+                && is_mem_const(self->data->data, data_length, data_const);
     }
 
     // cannot omit first chunk, which stores the sample_id offset.
